@@ -793,8 +793,10 @@ class NetworkXGraphStorage:
 
         def del_graph(self, graph_id: str) -> None:
             self.lock.acquire()
-            self.__del_graph_nl(graph_id)
-            self.lock.release()
+            try:
+                self.__del_graph_nl(graph_id)
+            finally:
+                self.lock.release()
 
         def extract_graph(self, graph_id: str) -> nx.Graph or None:
             self.lock.acquire()
